@@ -325,8 +325,8 @@ def gauss_seidel(A, x, b, iterations=1, sweep='forward', omega=1.0):
         row_start, row_stop, row_step = int(len(x)/blocksize)-1, -1, -1
     elif sweep == 'symmetric':
         for _iter in range(iterations):
-            gauss_seidel(A, x, b, iterations=1, sweep='forward')
-            gauss_seidel(A, x, b, iterations=1, sweep='backward')
+            gauss_seidel(A, x, b, iterations=1, sweep='forward', omega=omega)
+            gauss_seidel(A, x, b, iterations=1, sweep='backward', omega=omega)
         return
     else:
         raise ValueError('valid sweep directions: "forward", "backward", and "symmetric"')
